@@ -280,6 +280,7 @@ impl<Req, Res, E> RateLimiter<Req, Res, E> {
         requires old(tr).fresh(), old(self).inner.ready@,
         ensures
             final(tr).calls <= 1 && final(tr).calls == final(tr).permits,   // #reaches_inner_exactly_once_iff_a_permit_was_taken [C02,C15,C20]
+            final(tr).blocked == 0,   // #no_wait_between_taking_the_permit_and_the_inner_call [C02]
             result matches Err(RateLimiterServiceError::RateLimited) <==> final(tr).permits == 0,   // #rate_limited_error_iff_no_permit [C15]
             final(tr).calls == 1 ==> final(tr).done == 1 && final(tr).last_req == Some(req),   // #request_forwarded_unchanged [C20]
             result matches Ok(v) ==> final(tr).last_done == Some(Ok::<Res, E>(v)),   // #response_returned_unchanged [C20]
